@@ -257,8 +257,6 @@ theorem run_U_prefixN {g : Cfg} (ok : g.OKn) {F : Bytes} (hF : F <+: g.U) :
       rw [← this] at hf
       cases hf
 
-/-! ## Stages, and what a poll can end in -/
-
 theorem idle_pollN {g : Cfg} (ok : g.OKn) {c : Conn} {F O1 O2 : Bytes} (hO : O1 ++ O2 = g.Ot)
     (hst : PSt g.cap g.mc g.W' (g.L3 O1 O2) (serAll g.recs) c F)
     (hkeep : g.p.flags.toNat % 2 = 1) (hev : Ev1 g c.env.tr) (hre : ∀ s ∈ g.revs, s ∈ c.env.tr.events)
@@ -339,8 +337,6 @@ theorem idle_pollN {g : Cfg} (ok : g.OKn) {c : Conn} {F O1 O2 : Bytes} (hO : O1 
             (fun s hs => (hts1.trans hts).mem_events (hre s hs)), hfr.scripts.trans hsc, Or.inr ⟨hkeep, ?_⟩⟩⟩
         · show t.wlog = _; rw [hwl, hlog1]
         · show t.endMode = .eof; rw [hts.em]; exact heof
-
-/-! ## `close`: the last `write_all`, then reuse or `ConnectionReset` -/
 
 /-- A poll of `close` that is (back) in its last `write_all` (`t1` = the transport when that
 `write_all` is reached in this poll). -/
@@ -506,8 +502,6 @@ theorem handler_coreN {g : Cfg} (ok : g.OKn) {c : Conn} {r : AReq} {h : HState} 
     have hl := hts.tle.input_len
     show 1 + (2 * e'.tr.input.length + 8) ≤ _
     omega
-
-/-! ## `parse_request` of the request itself -/
 
 /-- **The handler start** (end of stage 1).  `parse_request` has consumed `F1`, its request parser is
 `done`, and the final `write_all` of its replies completes: then `F1` is the whole preamble plus the
@@ -689,8 +683,6 @@ theorem start_pollN {g : Cfg} (ok : g.OKn) {c : Conn} {raw : Bytes}
   have := Res.of_steps (Steps.one hstep') (mkC_link c _ (.refl _)) hres
   exact this.mono (by show 1 + (4 * c.env.tr.input.length + 16) ≤ _; omega)
 
-end Fcgi.E2E
-
 theorem stage_pollN {g : Cfg} (ok : g.OKn) {c : Conn} (hst : Stage g c) :
     Res g (4 * c.env.tr.input.length + 17) c := by
   cases hst with
@@ -713,8 +705,6 @@ theorem stage_pollN {g : Cfg} (ok : g.OKn) {c : Conn} (hst : Stage g c) :
     rw [closePoll_late _ _ _ _ _ _ rfl]
     rfl
   | idle hO hst _ hkeep hev hre hsc hmx => exact (idle_pollN ok hO hst hkeep hev hre hsc hmx).mono (by omega)
-
-/-! ## Stages do not look at the trace, the waker flag, or `hold` -/
 
 /-- **The executor.**  Started in a stage with nothing held back by a peer, `runTask` needs at most
 one poll per scripted answer still to come (plus one) and ends `RET` with the connection finished,
@@ -786,14 +776,14 @@ theorem run_from_stageN' {g : Cfg} (ok : g.OKn) : ∀ (A : Nat) (c : Conn) (n fu
         obtain ⟨c2, ⟨h1, h1', h1'', h1e⟩, h2⟩ := ih c' (n + 1) f hs' hsg' (by omega) (by omega)
         exact ⟨c2, ⟨h1.trans hem.1, by have := hem.2.1; omega, h1'', fun s hs => h1e s (hem.2.2.2 s hs)⟩, h2⟩
 
-theorem Cfg.ShapeN.at {g : Cfg} (h : g.ShapeN) (L : Bytes) : (g.at L).Shape := by
+theorem Cfg.ShapeN.at {g : Cfg} (h : g.ShapeN) (L : Bytes) : (g.at L).ShapeN := by
   cases h with
   | responderU hr hb hf hp hX2 hX hU hOt hrv hs => exact .responderU hr hb hf hp hX2 hX hU hOt hrv hs
   | authorizer hr hX hU hOt hrv hs => exact .authorizer hr hX hU hOt hrv hs
   | filterU hr hb hb2 hf hf2 hp hp2 hX2 hX hU hOt hrv hs =>
     exact .filterU hr hb hb2 hf hf2 hp hp2 hX2 hX hU hOt hrv hs
 
-theorem Cfg.OKn.at {g : Cfg} (ok : g.OKn) (L : Bytes) : (g.at L).OK :=
+theorem Cfg.OKn.at {g : Cfg} (ok : g.OKn) (L : Bytes) : (g.at L).OKn :=
   ⟨ok.wf, ok.pairs, ok.noise, ok.shape.at L⟩
 
 /-- `chain_run` without any bound on the size of the requests -/
@@ -856,8 +846,5 @@ theorem chain_runN' : ∀ (gs : List Cfg) (g : Cfg) (c : Conn) (n fuel : Nat),
         · rcases List.mem_cons.1 hg' with rfl | hg''
           · exact hall2 (g'.at (g.L3 O1 O2)) List.mem_cons_self
           · exact hall2 g' (List.mem_cons_of_mem _ hg'')
-
-
-end Fcgi.E2E
 
 end Fcgi.E2E
